@@ -167,14 +167,22 @@ pub struct Overwrite {
 #[derive(Default)]
 pub struct MonWriter {
     pub data: Vec<u8>,
+    /// number of octets the writer holds *before* `data` without storing them (a writer that is already 4 GiB into a
+    /// stream, say): positions reported and accepted are `base + index into data`
+    pub base: usize,
     pub overwrites: Vec<Overwrite>,
     /// an overwrite that did not lie inside the written data (recorded, not applied)
     pub out_of_range: Vec<Overwrite>,
+    /// an overwrite that landed in the implicit first `base` octets (recorded, not applied)
+    pub into_base: Vec<Overwrite>,
 }
 
 impl MonWriter {
     pub fn with_prefix(p: &[u8]) -> Self {
-        MonWriter { data: p.to_vec(), overwrites: Vec::new(), out_of_range: Vec::new() }
+        MonWriter { data: p.to_vec(), base: 0, overwrites: Vec::new(), out_of_range: Vec::new(), into_base: Vec::new() }
+    }
+    pub fn with_virtual_base(base: usize, p: &[u8]) -> Self {
+        MonWriter { data: p.to_vec(), base, overwrites: Vec::new(), out_of_range: Vec::new(), into_base: Vec::new() }
     }
 }
 
@@ -183,16 +191,22 @@ impl Writer for MonWriter {
         self.data.is_empty()
     }
     fn len(&self) -> usize {
-        self.data.len()
+        self.base + self.data.len()
     }
     fn write_bytes(&mut self, bytes: &[u8]) {
         self.data.extend_from_slice(bytes);
     }
     fn write_bytes_at(&mut self, bytes: &[u8], offset: usize) {
-        let ow = Overwrite { offset, len: bytes.len(), writer_len: self.data.len() };
+        let total = self.base + self.data.len();
+        let ow = Overwrite { offset, len: bytes.len(), writer_len: total };
+        if offset < self.base {
+            self.into_base.push(ow);
+            return;
+        }
         match offset.checked_add(bytes.len()) {
-            Some(end) if end <= self.data.len() => {
-                self.data[offset..end].copy_from_slice(bytes);
+            Some(end) if end <= total => {
+                let (a, b) = (offset - self.base, end - self.base);
+                self.data[a..b].copy_from_slice(bytes);
                 self.overwrites.push(ow);
             }
             _ => self.out_of_range.push(ow),
